@@ -288,6 +288,7 @@ impl Harness for Managed {
         match profile {
             "C03" => c03_grid(),
             "C10" => c10_grid(),
+            "C08" => c08_grid(),
             _ => Vec::new(),
         }
     }
@@ -529,6 +530,59 @@ pub fn c10_grid() -> Vec<MScenario> {
                         }
                     }
                 }
+            }
+        }
+    }
+    out
+}
+
+/// Long single-thread histories for C08: the reuse order has to hold on the hundredth hand-out as
+/// on the first (k objects idle at once, then many get / return cycles that keep the rest idle).
+pub fn c08_grid() -> Vec<MScenario> {
+    use crate::engine::Knobs;
+    let get = Op::Get { t: GetT::Inherit, fault: None, enclosing: None, cancellable: false };
+    let mut out = Vec::new();
+    for lifo in [false, true] {
+        for k in [2usize, 3, 5] {
+            for hold in [1usize, 2] {
+                if hold >= k {
+                    continue;
+                }
+                let mut ops = Vec::new();
+                for _ in 0..k {
+                    ops.push(get);
+                }
+                for _ in 0..k {
+                    ops.push(Op::Return { slot: 0, unwinding: false });
+                }
+                for _ in 0..70 {
+                    for _ in 0..hold {
+                        ops.push(get);
+                    }
+                    for _ in 0..hold {
+                        ops.push(Op::Return { slot: 0, unwinding: false });
+                    }
+                }
+                out.push(MScenario {
+                    profile: "C08".into(),
+                    pool: PoolCfg {
+                        max_size: k,
+                        lifo,
+                        wait: None,
+                        create: None,
+                        recycle: None,
+                        runtime: true,
+                        post_create: vec![],
+                        pre_recycle: vec![],
+                        post_recycle: vec![],
+                    },
+                    actors: vec![ops],
+                    outcomes: Outcomes::default(),
+                    knobs: Knobs::default(),
+                    sched_seed: 1,
+                    drop_handles_first: false,
+                    rest_every: 0,
+                });
             }
         }
     }
